@@ -70,7 +70,7 @@ def c03(tier):
     run = Run("C03", tier)
     run.rule = ("TLC enumerates every grid of the listed sizes over {space,-,|,+} (and one label); each is "
                 "replayed into the real library and the recorded document is checked by the trace spec "
-                "against RefStrokes/TextsExact; plus seeded random grids up to 14x8 and grids of boxes nested two to four deep with random content. Non-trivial = the grid "
+                "against RefStrokes/TextsExact; plus seeded random grids up to 14x8 grids of boxes nested two to four deep with random content, buses with taps and random-walk paths. Non-trivial = the grid "
                 "denotes at least one stroke; events are de-duplicated by input text.")
     sizes = [(3, 2, A1 + [97]), (2, 3, A1 + [97]), (1, 6, A1), (6, 1, A1)]
     nrandom = 6000
@@ -97,6 +97,10 @@ def c03(tier):
     # structure the random grids hardly ever produce: boxes nested two to four deep with random content inside
     for i in range(nrandom // 6):
         texts.append(gen.nested_grid(r, "-|+" if i % 2 == 0 else "-|+" + r.choice(gen.LABELS) + r.choice(gen.LABELS)))
+    # buses with taps and long thin paths: cells met in an order unrelated to how they are connected, so that the
+    # greedy grouping needs several passes
+    for i in range(nrandom // 6):
+        texts.append(gen.comb_grid(r) if i % 2 == 0 else gen.walk_grid(r))
     texts = gen.dedup(texts)
     observe_events(run, texts, ["C03"], "random-grid")
     run.samples.append({"input": texts[0]})
